@@ -44,8 +44,14 @@ def atoms(tier='quick'):
         ('Unicode(nillable=False)', P('Unicode', nillable=False)), ('Unicode(min_occurs=1)', P('Unicode', min_occurs=1)),
         ('Mandatory(Unicode)', ['m', P('Unicode')]),
         ('Date(min_occurs=1)', P('Date', min_occurs=1)), ('Mandatory(Date)', ['m', P('Date')]),
+        # a complex type as the atom: nullability and occurrence of object-valued slots
+        ('Obj', ['c', 'Q', {}]), ('Obj(nillable=False)', ['c', 'Q', {'nillable': False}]), ('Obj(min_occurs=1)', ['c', 'Q', {'min_occurs': 1}]),
+        ('Obj(min_occurs=1,nillable=False)', ['c', 'Q', {'min_occurs': 1, 'nillable': False}]),
     ]
     return A
+
+
+ATOM_CLASSES = {'Q': {'n': 'Q', 'fields': [['q', ['p', 'Integer', {}]], ['qs', ['p', 'Unicode', {}]]]}}
 
 
 ENUMS = {'Color': ['red', 'green', 'dark blue']}
@@ -54,6 +60,8 @@ ENUMS = {'Color': ['red', 'green', 'dark blue']}
 def atom_values(t, tier='quick', limit=None):
     """conformant [(label, value)] for an atom type (without the None case)"""
     bt = validity.base_of(t)
+    if bt[0] == 'c':
+        return [('obj', Obj(bt[1], q=1, qs='s')), ('obj-partial', Obj(bt[1], q=None, qs='only')), ('obj-empty', Obj(bt[1], q=None, qs=None))]
     if bt[0] == 'e':
         vals = [('member', x) for x in ENUMS[bt[1]]]
     else:
@@ -86,7 +94,16 @@ def atom_values(t, tier='quick', limit=None):
 
 
 class _EnumBuilt(object):
+    """the little a validity predicate needs to know about the universe's programs (enums, the atom classes)"""
     program = {'enums': ENUMS}
+
+    @staticmethod
+    def is_subclass(sub, base):
+        return sub == base
+
+    @staticmethod
+    def flat_fields(cname):
+        return [(fn, ft) for fn, ft in ATOM_CLASSES[cname]['fields']]
 
 
 def none_ok(t):
@@ -108,6 +125,8 @@ def program_for(atom_t, pos):
     prog = {'tns': TNS, 'enums': ENUMS, 'classes': [], 'services': []}
     I = ['p', 'Integer', {}]
     bt = validity.base_of(atom_t)
+    if bt[0] == 'c' and bt[1] in ATOM_CLASSES:
+        prog['classes'].append(copy.deepcopy(ATOM_CLASSES[bt[1]]))
     simple = bt[0] in ('p', 'e')
     m = {'n': 'm', 'args': [], 'ret': None}
     if pos == 'arg':
